@@ -297,6 +297,7 @@ def worker(ctx):
     _random.Random(ctx.seed).shuffle(idx)
     todo = [('corpus', c[i]) for k, i in enumerate(idx[:cfg['n_corpus']]) if ctx.mine(k)]
     todo += [('special', s) for k, (s, _) in enumerate(G.special()) if ctx.mine(k)]
+    todo += [('explicit-h', s) for k, s in enumerate(G.EXPLICIT_H) if ctx.mine(k)]
     # ladders: >= 10 simultaneously open closures, number recycling
     for k in range(8, 40 if ctx.tier == 'quick' else 70):
         if ctx.mine(k):
